@@ -2,7 +2,7 @@
 # usage: tools/par_seeds.sh [lanes]  — every seeded change against the check of its own property, in parallel lanes.
 # Each lane works on its own scratch git worktree of /repo (at HEAD) and its own scratch copy of /verif (the same
 # harness and Coq sources, with the check's PYTHONPATH pointing at the lane's worktree), so /repo and /verif are
-# not touched.  Results: /tmp/par_seeds.out (one line per seed); scratch copies are removed at the end.
+# not touched.  SEED_FILTER='*_r7m*' restricts the run to the seeds whose id matches the shell pattern.  Results: /tmp/par_seeds.out (one line per seed); scratch copies are removed at the end.
 lanes="${1:-4}"
 rm -f /tmp/par_seeds.out
 k=0
@@ -20,6 +20,7 @@ lane() {
   i=0
   for d in /verif/seeded/*/; do
     id=$(basename $d); prop=${id%%_*}
+    case "$id" in ${SEED_FILTER:-*}) ;; *) continue ;; esac
     n=$(echo $prop | sed 's/C0*//'); [ $((n % lanes)) -eq $k ] || continue
     git -C $wt apply /verif/seeded/$id/patch.diff 2>/dev/null || { echo "$id: PATCH DOES NOT APPLY" >> /tmp/par_seeds.out; continue; }
     out=$($vc/check "$prop" quick 2>/tmp/par_seeds_err_$k.txt); rc=$?
